@@ -239,11 +239,11 @@ m("C13-take-after-raise", "C13", "compile/_tensor_method.py",
   "        take_ownership_of_arrays(cffi_output)\n\n        if return_value != 0:\n            raise RuntimeError(f\"Kernel evaluation failed with error code {return_value}\")\n",
   "        if return_value != 0:\n            raise RuntimeError(f\"Kernel evaluation failed with error code {return_value}\")\n\n        take_ownership_of_arrays(cffi_output)\n", "C13.hand-over")
 m("C13-only-pos", "C13", "compile/_cffi_ownership.py",
-  "            memory_holder[\"**indices\"][i_dimension][1] = tensor_cdefs.gc(\n                cffi_levels[i_dimension][1], tensor_lib.free\n            )\n", "", "C13.owned-slots")
+  "            memory_holder[\"**indices\"][i_dimension][1] = tensor_cdefs.gc(\n                cffi_levels[i_dimension][1], tensor_lib.free\n            )\n", "", "C13.ownership-semantics")
 m("C13-second-call", "C13", "compile/_tensor_method.py",
   "        take_ownership_of_arrays(cffi_output)\n\n        if return_value != 0:", "        take_ownership_of_arrays(cffi_output)\n        take_ownership_of_arrays(cffi_output)\n\n        if return_value != 0:", "C13.hand-over")
 m("C13-local-holder", "C13", "compile/_cffi_ownership.py",
-  "    memory_holder = global_weakkeydict[cffi_tensor]\n\n    order = cffi_tensor.order\n\n    modes", "    memory_holder = {\"**indices\": [[None, None] for _ in range(cffi_tensor.order)]}\n\n    order = cffi_tensor.order\n\n    modes", "C13.anchoring")
+  "    memory_holder = global_weakkeydict[cffi_tensor]\n\n    order = cffi_tensor.order\n\n    modes", "    memory_holder = {\"**indices\": [[None, None] for _ in range(cffi_tensor.order)]}\n\n    order = cffi_tensor.order\n\n    modes", "C13.ownership-semantics")
 m("C13-free-input", "C13", "compile/_tensor_method.py",
   "        take_ownership_of_arrays(cffi_output)\n\n        if return_value != 0:", "        take_ownership_of_arrays(cffi_output)\n        for argument in bound_arguments.values():\n            take_ownership_of_arrays(argument.cffi_tensor)\n\n        if return_value != 0:", "C13.")
 # ---------------------------------------------------------------- C14
